@@ -799,6 +799,9 @@ func TestMessages(t *testing.T) {
 	check := func(id string, msg any, newPtr func() any) {
 		n++
 		var probs []string
+		if n%3 == 0 {
+			provokeEncodePanic() // an encoding that failed (and was recovered by the caller) must not affect the next one
+		}
 		b1 := ttlv.MarshalTTLV(msg)
 		if docs != nil && len(b1) < 60000 {
 			docs.Emit(map[string]any{"msg": id, "ttlv": fmt.Sprintf("%x", b1), "xml": string(ttlv.MarshalXML(msg)), "json": string(ttlv.MarshalJSON(msg))})
@@ -1044,6 +1047,19 @@ func TestMessages(t *testing.T) {
 			func() any { return new(kmip.ResponseMessage) })
 	}
 	out.Emit(map[string]any{"summary": true, "messages": n})
+}
+
+// provokeEncodePanic makes each Marshal function panic in the middle of a message (a negative interval) and recovers, as
+// net/http does around the HTTP handler
+func provokeEncodePanic() {
+	bad := &kmip.ResponseMessage{Header: kmip.ResponseHeader{ProtocolVersion: kmip.V1_4, TimeStamp: sampleTime, BatchCount: 1},
+		BatchItem: []kmip.ResponseBatchItem{{Operation: kmip.OperationObtainLease, ResponsePayload: &payloads.ObtainLeaseResponsePayload{UniqueIdentifier: "x", LeaseTime: -time.Second}}}}
+	for _, m := range []func(any) []byte{ttlv.MarshalTTLV, ttlv.MarshalXML, ttlv.MarshalJSON} {
+		func() {
+			defer func() { _ = recover() }()
+			m(bad)
+		}()
+	}
 }
 
 func firstDiff(a, b []byte) int {
